@@ -2,9 +2,11 @@
    the extracted inductive.  No Extract Constant. *)
 From Coq Require Import Extraction ExtrOcamlBasic.
 From Coq Require Import List Arith NArith ZArith.
-From GV Require Import model.ExecStack model.TaskSched.
+From GV Require Import model.ExecStack model.TaskSched model.BarrierMergeQueue.
 (* positive / N / Z / comparison are only needed by the shared OCaml prelude *)
 Extraction "extract/sched_model.ml"
   BinNums.positive BinNums.N BinNums.Z Datatypes.comparison
   ExecStack.new ExecStack.pop_next ExecStack.run_script ExecStack.pipe_poll
-  TaskSched.init TaskSched.step TaskSched.run TaskSched.accepts TaskSched.n_alive TaskSched.n_in_execute.
+  TaskSched.init TaskSched.step TaskSched.run TaskSched.accepts TaskSched.n_alive TaskSched.n_in_execute
+  BarrierMergeQueue.q_new BarrierMergeQueue.q_complete BarrierMergeQueue.q_add BarrierMergeQueue.q_poll
+  BarrierMergeQueue.q_merge_done BarrierMergeQueue.q_take.
